@@ -877,6 +877,500 @@ def module_state(fname, tree):
     return sorted(out, key=lambda r: (r["file"], r["line"], r["name"]))
 
 
+# ---------------------------------------------------------------------- module-level mutable objects: every use
+# A module-level mutable object (set/dict/list display or constructor call bound at module level, a class-level one, or an
+# object of unknown class) may be READ by the functions of the module; it must not be mutated and it must not ESCAPE - be
+# passed to a call (`ctx.setdefault(key, M)`, `ctx.get(key, M)`, `f(M)`, `x.append(M)`), stored into a container / item /
+# attribute (`ctx[key] = M`, `{..: M}`, `[M]`), returned, yielded, captured as a default argument - because whatever holds
+# the alias can mutate it later, where the by-name inventory above cannot see it.  Local aliases (`a = M`, `a = M.get(k)`
+# when M holds mutable values, `for a in M.values()`, ...) are followed inside the function (flow-insensitively).
+#   class 0 = read-only use, 1 = escapes, 2 = mutated (by name or through a followed alias)
+USE_READ_FUNCS_END = {"len", "isinstance", "any", "all", "bool", "str", "repr", "sum", "min", "max", "print", "type", "hash", "format"}
+USE_READ_FUNCS_COPY = {"sorted", "list", "tuple", "dict", "set", "frozenset", "reversed", "enumerate", "zip", "iter", "next", "map", "filter"}
+USE_READ_METHODS_END = {"index", "count", "__contains__", "issubset", "issuperset", "isdisjoint", "__len__", "join",
+                        "startswith", "endswith"}
+USE_READ_METHODS_SUB = {"get", "values", "items", "keys", "copy", "union", "difference", "intersection",
+                        "symmetric_difference", "__getitem__"}
+
+
+class _Unknown:
+    """a value whose structure the walker cannot see: treated as mutable, with mutable parts"""
+
+
+_UNKNOWN = _Unknown()
+
+
+def _shape_mutable(shapes):
+    return any(sh is _UNKNOWN or value_class(sh) != "immutable" for sh in shapes)
+
+
+def _shape_children(shapes, key=None):
+    """the shapes of what M[k] / M.get(k) / iterating M / M.values() hands out (key-precise for constant keys of a dict display)"""
+    out = []
+    for sh in shapes:
+        if sh is _UNKNOWN:
+            out.append(_UNKNOWN)
+        elif isinstance(sh, ast.Dict):
+            hit = False
+            if key is not None and all(isinstance(k, ast.Constant) for k in sh.keys):
+                for k, v in zip(sh.keys, sh.values):
+                    if k.value == key:
+                        out.append(v)
+                        hit = True
+                if not hit:
+                    continue
+            else:
+                out += list(sh.values)
+        elif isinstance(sh, (ast.List, ast.Set, ast.Tuple)):
+            out += list(sh.elts)
+        elif isinstance(sh, ast.Call) and ast.unparse(sh.func) in ("set", "frozenset", "dict", "list") and not sh.args and not sh.keywords:
+            continue
+        elif isinstance(sh, (ast.Constant, ast.JoinedStr)):
+            continue
+        else:
+            out.append(_UNKNOWN)
+    return out
+
+
+def module_uses(fname, tree):
+    """-> (uses, default_sites, preseeded, prologue) for one file"""
+    parent = {}
+    for p in ast.walk(tree):
+        for c in ast.iter_child_nodes(p):
+            parent[c] = p
+    # roots: module-level and class-level bindings of mutable / unknown objects
+    roots = {}          # name -> nested?
+
+    def scan_body(body, prefix):
+        for st in body:
+            tgts, val = [], None
+            if isinstance(st, ast.Assign):
+                tgts, val = st.targets, st.value
+            elif isinstance(st, ast.AnnAssign) and st.value is not None:
+                tgts, val = [st.target], st.value
+            for t in tgts:
+                if isinstance(t, ast.Name) and value_class(val) != "immutable":
+                    roots[prefix + t.id] = [val]
+                elif isinstance(t, (ast.Tuple, ast.List)):
+                    for n in ast.walk(t):
+                        if isinstance(n, ast.Name) and value_class(val) != "immutable":
+                            roots[prefix + n.id] = [_UNKNOWN]
+            if isinstance(st, ast.ClassDef):
+                scan_body(st.body, prefix + st.name + ".")
+            elif isinstance(st, (ast.If, ast.Try, ast.With)):
+                for fld in ("body", "orelse", "finalbody"):
+                    scan_body(getattr(st, fld, []) or [], prefix)
+                for h in getattr(st, "handlers", []) or []:
+                    scan_body(h.body, prefix)
+    scan_body(tree.body, "")
+    # module-level aliases of a root (`X = M`)
+    changed = True
+    while changed:
+        changed = False
+        for st in tree.body:
+            if isinstance(st, ast.Assign) and isinstance(st.value, ast.Name) and st.value.id in roots:
+                for t in st.targets:
+                    if isinstance(t, ast.Name) and t.id not in roots:
+                        roots[t.id] = roots[st.value.id]
+                        changed = True
+
+    funcs = [n for n in ast.walk(tree) if isinstance(n, (ast.FunctionDef, ast.AsyncFunctionDef, ast.Lambda))]
+
+    def enclosing_funcs(node):
+        out = []
+        n = parent.get(node)
+        while n is not None:
+            if isinstance(n, (ast.FunctionDef, ast.AsyncFunctionDef, ast.Lambda)):
+                out.append(n)
+            n = parent.get(n)
+        return out
+
+    def own_nodes(fn):
+        """nodes of fn's own body (not of nested functions)"""
+        body = fn.body if isinstance(fn.body, list) else [fn.body]
+        stack = list(body)
+        while stack:
+            n = stack.pop()
+            yield n
+            for c in ast.iter_child_nodes(n):
+                if isinstance(c, (ast.FunctionDef, ast.AsyncFunctionDef, ast.Lambda)):
+                    # its default values / decorators are evaluated in this scope
+                    if not isinstance(c, ast.Lambda):
+                        stack.extend(c.decorator_list)
+                    stack.extend(c.args.defaults)
+                    stack.extend([d for d in c.args.kw_defaults if d is not None])
+                    continue
+                stack.append(c)
+
+    local = {}      # fn -> names bound in fn
+    globs = {}
+    for fn in funcs:
+        g = set()
+        l = set()
+        a = fn.args
+        for arg in list(a.posonlyargs) + list(a.args) + list(a.kwonlyargs) + ([a.vararg] if a.vararg else []) + ([a.kwarg] if a.kwarg else []):
+            l.add(arg.arg)
+        for n in own_nodes(fn):
+            if isinstance(n, ast.Global):
+                g |= set(n.names)
+            elif isinstance(n, ast.Name) and isinstance(n.ctx, (ast.Store, ast.Del)):
+                l.add(n.id)
+            elif isinstance(n, (ast.FunctionDef, ast.AsyncFunctionDef, ast.ClassDef)):
+                l.add(n.name)
+            elif isinstance(n, ast.ExceptHandler) and n.name:
+                l.add(n.name)
+            elif isinstance(n, (ast.Import, ast.ImportFrom)):
+                for al in n.names:
+                    l.add((al.asname or al.name).split(".")[0])
+        local[fn] = l - g
+        globs[fn] = g
+    alias = {fn: {} for fn in funcs}     # fn -> {local name: (root, nested)}
+
+    def resolve(name_node):
+        """-> (root, nested) if this Name denotes a module-level mutable object or a followed alias of one"""
+        nm = name_node.id
+        for fn in enclosing_funcs(name_node):
+            if nm in local[fn]:
+                return alias[fn].get(nm)
+        if nm in roots:
+            return (nm, roots[nm])
+        return None
+
+    def md(e):
+        """module-derived: -> (root, shapes) if evaluating e yields a module-level mutable object or a mutable part of one"""
+        r = md0(e)
+        return r if r and _shape_mutable(r[1]) else None
+
+    def const_key(sl):
+        return sl.value if isinstance(sl, ast.Constant) else None
+
+    def md0(e):
+        if isinstance(e, ast.Name):
+            return resolve(e) if isinstance(e.ctx, ast.Load) else None
+        if isinstance(e, ast.Attribute) and isinstance(e.value, ast.Name) and (e.value.id + "." + e.attr) in roots:
+            return (e.value.id + "." + e.attr, roots[e.value.id + "." + e.attr])       # Class.attr
+        if isinstance(e, ast.Subscript):
+            r = md0(e.value)
+            if not r:
+                return None
+            if isinstance(e.slice, ast.Slice):
+                return r
+            return (r[0], _shape_children(r[1], const_key(e.slice)))
+        if isinstance(e, ast.Call) and isinstance(e.func, ast.Attribute) and e.func.attr in USE_READ_METHODS_SUB:
+            r = md0(e.func.value)
+            if not r:
+                return None
+            m = e.func.attr
+            if m == "get":
+                sh = _shape_children(r[1], const_key(e.args[0]) if e.args else None)
+                if len(e.args) > 1:
+                    d = md0(e.args[1])
+                    sh = sh + (d[1] if d else [e.args[1]])
+                return (r[0], sh)
+            if m in ("values", "__getitem__"):
+                return (r[0], [ast.List(elts=_shape_children(r[1]), ctx=ast.Load())]) if m == "values" else (r[0], _shape_children(r[1]))
+            if m == "items":
+                return (r[0], [ast.List(elts=[ast.Tuple(elts=[ast.Constant(value=0), c], ctx=ast.Load()) if c is not _UNKNOWN else _UNKNOWN
+                                              for c in _shape_children(r[1])], ctx=ast.Load())])
+            if m == "keys":
+                return None
+            # copy / union / ...: a new container holding the same elements
+            kids = _shape_children(r[1])
+            return (r[0], [ast.Tuple(elts=[k for k in kids if k is not _UNKNOWN], ctx=ast.Load())] + ([_UNKNOWN] if _UNKNOWN in kids else []))
+        if isinstance(e, ast.Call) and isinstance(e.func, ast.Name) and e.func.id in USE_READ_FUNCS_COPY and e.args:
+            for a in e.args:
+                r = md0(a)
+                if r:
+                    kids = _shape_children(r[1])
+                    if e.func.id == "next":
+                        return (r[0], kids)
+                    if e.func.id in ("enumerate", "zip"):
+                        kids = [ast.Tuple(elts=[ast.Constant(value=0), k], ctx=ast.Load()) if k is not _UNKNOWN else _UNKNOWN for k in kids]
+                    return (r[0], [ast.Tuple(elts=[k for k in kids if k is not _UNKNOWN], ctx=ast.Load())] + ([_UNKNOWN] if _UNKNOWN in kids else []))
+            return None
+        if isinstance(e, ast.BoolOp):
+            acc = None
+            for v in e.values:
+                r = md0(v)
+                if r:
+                    acc = (r[0], (acc[1] if acc else []) + r[1])
+            return acc
+        if isinstance(e, ast.IfExp):
+            a, b = md0(e.body), md0(e.orelse)
+            if a and b:
+                return (a[0], a[1] + b[1])
+            return a or b
+        if isinstance(e, ast.NamedExpr):
+            return md0(e.value)
+        if isinstance(e, ast.Starred):
+            return md0(e.value)
+        return None
+
+    def bind_alias(target, r, elementwise):
+        """`target = <module-derived>`; elementwise: the target receives ELEMENTS of it (for / unpacking)"""
+        ch = False
+        shapes = _shape_children(r[1]) if elementwise else r[1]
+        if not _shape_mutable(shapes):
+            return False
+        if isinstance(target, ast.Name):
+            fns = enclosing_funcs(target)
+            if fns and target.id in local[fns[0]]:
+                old = alias[fns[0]].get(target.id)
+                if old is None:
+                    alias[fns[0]][target.id] = (r[0], list(shapes))
+                    ch = True
+                else:
+                    add = [sh for sh in shapes if not any(sh is o for o in old[1])]
+                    if add and len(old[1]) < 64:
+                        old[1].extend(add)
+                        ch = True
+        elif isinstance(target, (ast.Tuple, ast.List)):
+            # positional unpacking of tuple-shaped values: element i of every tuple shape; anything else: all parts
+            for i_, t in enumerate(target.elts):
+                part = []
+                for sh in shapes:
+                    if isinstance(sh, (ast.Tuple, ast.List)) and len(sh.elts) == len(target.elts) and not any(isinstance(x, ast.Starred) for x in target.elts):
+                        part.append(sh.elts[i_])
+                    else:
+                        part += _shape_children([sh])
+                ch |= bind_alias(t.value if isinstance(t, ast.Starred) else t, (r[0], part), False)
+        return ch
+
+    changed = True
+    rounds = 0
+    while changed and rounds < 8:
+        changed = False
+        rounds += 1
+        for n in ast.walk(tree):
+            if isinstance(n, ast.Assign):
+                r = md(n.value)
+                if r:
+                    for t in n.targets:
+                        if isinstance(t, ast.Name):
+                            changed |= bind_alias(t, r, False)
+                        elif isinstance(t, (ast.Tuple, ast.List)):
+                            changed |= bind_alias(t, r, False)
+            elif isinstance(n, ast.AnnAssign) and n.value is not None:
+                r = md(n.value)
+                if r and isinstance(n.target, ast.Name):
+                    changed |= bind_alias(n.target, r, False)
+            elif isinstance(n, ast.NamedExpr):
+                r = md(n.value)
+                if r:
+                    changed |= bind_alias(n.target, r, False)
+            elif isinstance(n, (ast.For, ast.AsyncFor, ast.comprehension)):
+                r = md(n.iter)
+                if r:
+                    changed |= bind_alias(n.target, r, True)
+            elif isinstance(n, ast.withitem) and n.optional_vars is not None:
+                r = md(n.context_expr)
+                if r:
+                    changed |= bind_alias(n.optional_vars, r, False)
+
+    uses = []
+
+    def classify(e):
+        """e is a module-derived expression; climb until its fate is known -> (class, how)"""
+        r = md(e)
+        p = parent.get(e)
+        while True:
+            if p is None:
+                return 0, "module-level expression"
+            if isinstance(p, ast.Subscript) and p.value is e:
+                if isinstance(p.ctx, (ast.Store, ast.Del)):
+                    return 2, "item store / delete"
+                if md(p):
+                    e, p = p, parent.get(p)
+                    continue
+                return 0, "item lookup (immutable values)"
+            if isinstance(p, ast.Subscript):
+                return 0, "used as an index"
+            if isinstance(p, ast.Attribute) and p.value is e:
+                if isinstance(p.ctx, (ast.Store, ast.Del)):
+                    return 2, "attribute store"
+                call = parent.get(p)
+                if isinstance(call, ast.Call) and call.func is p:
+                    m = p.attr
+                    if m in MUTATORS:
+                        return 2, f".{m}()"
+                    if m in USE_READ_METHODS_END:
+                        return 0, f".{m}()"
+                    if m in USE_READ_METHODS_SUB:
+                        if md(call):
+                            e, p = call, parent.get(call)
+                            continue
+                        return 0, f".{m}() (immutable values)"
+                    return 1, f"unknown method .{m}()"
+                return 1, f"bound method / attribute .{p.attr} taken"
+            if isinstance(p, ast.Compare):
+                return 0, "comparison / membership test"
+            if isinstance(p, (ast.BoolOp, ast.IfExp, ast.NamedExpr, ast.Starred)):
+                if isinstance(p, ast.IfExp) and p.test is e:
+                    return 0, "truth test"
+                if md(p):
+                    e, p = p, parent.get(p)
+                    continue
+                return 0, "truth test"
+            if isinstance(p, ast.UnaryOp):
+                return 0, "truth test"
+            if isinstance(p, ast.BinOp):
+                return 0, "operand of a binary operator (new object)"
+            if isinstance(p, (ast.If, ast.While, ast.Assert)) and getattr(p, "test", None) is e:
+                return 0, "truth test"
+            if isinstance(p, (ast.For, ast.AsyncFor, ast.comprehension)) and p.iter is e:
+                return 0, "iterated"
+            if isinstance(p, ast.comprehension):
+                return 0, "comprehension condition"
+            if isinstance(p, (ast.FormattedValue, ast.JoinedStr)):
+                return 0, "formatted"
+            if isinstance(p, ast.Expr):
+                return 0, "expression statement"
+            if isinstance(p, ast.Call):
+                if p.func is e:
+                    return 0, "called"
+                f = p.func
+                if isinstance(f, ast.Name) and f.id in USE_READ_FUNCS_END:
+                    return 0, f"{f.id}()"
+                if isinstance(f, ast.Name) and f.id in USE_READ_FUNCS_COPY:
+                    if md(p):
+                        e, p = p, parent.get(p)
+                        continue
+                    return 0, f"{f.id}() (shallow copy of immutable values)"
+                if isinstance(f, ast.Attribute) and f.attr == "join":
+                    return 0, "join()"
+                tgt = ast.unparse(f)
+                key = ""
+                if isinstance(f, ast.Attribute) and f.attr in ("setdefault", "get", "pop") and p.args and isinstance(p.args[0], ast.Constant):
+                    key = f" key {p.args[0].value!r}"
+                return 1, f"passed to {tgt[:40]}(){key}"
+            if isinstance(p, ast.keyword):
+                call = parent.get(p)
+                return 1, f"passed as keyword {p.arg} to {ast.unparse(call.func)[:40]}()" if isinstance(call, ast.Call) else "keyword"
+            if isinstance(p, (ast.Assign, ast.AnnAssign, ast.AugAssign)):
+                if isinstance(p, ast.AugAssign):
+                    return (1, "elements handed to an augmented assignment") if (r and _shape_mutable(_shape_children(r[1]))) else (0, "operand of an augmented assignment")
+                tgts = p.targets if isinstance(p, ast.Assign) else [p.target]
+                if p.value is not e:
+                    return 0, "assignment target part"
+                worst = (0, "bound to a followed local alias")
+                for t in tgts:
+                    if isinstance(t, ast.Name):
+                        fns = enclosing_funcs(t)
+                        if not fns:
+                            continue                       # module-level alias, listed on its own
+                        if t.id in globs[fns[0]]:
+                            return 1, f"stored into global {t.id}"
+                    elif isinstance(t, (ast.Tuple, ast.List)):
+                        continue                            # unpacked: elements followed by bind_alias
+                    else:
+                        return 1, f"stored into {ast.unparse(t)[:40]}"
+                return worst
+            if isinstance(p, (ast.Return, ast.Yield, ast.YieldFrom)):
+                return 1, "returned / yielded"
+            if isinstance(p, (ast.List, ast.Tuple, ast.Set)):
+                return 1, "placed in a container display"
+            if isinstance(p, ast.Dict):
+                return 1, "placed in a dict display"
+            if isinstance(p, ast.arguments):
+                return 1, "default argument value"
+            if isinstance(p, ast.withitem):
+                return 0, "context expression"
+            if isinstance(p, ast.Delete):
+                return 2, "del"
+            if isinstance(p, ast.Lambda):
+                return 1, "returned by a lambda"
+            return 1, f"unclassified context {type(p).__name__} (fail-closed)"
+
+    def resolve_store(name_node):
+        nm = name_node.id
+        fns = enclosing_funcs(name_node)
+        for fn in fns:
+            if nm in local[fn]:
+                return alias[fn].get(nm)
+        return (nm, roots[nm]) if nm in roots and (not fns or nm in globs.get(fns[0], ())) else None
+
+    for n in ast.walk(tree):
+        if isinstance(n, ast.Name) and isinstance(n.ctx, ast.Load):
+            r = resolve(n)
+            if not r:
+                continue
+            cls, how = classify(n)
+            via = "" if n.id == r[0] else f" (through alias {n.id})"
+            fns = enclosing_funcs(n)
+            uses.append({"file": fname, "name": r[0], "line": n.lineno, "fn": getattr(fns[0], "name", "<lambda>") if fns else "<module>",
+                         "class": cls, "how": how + via})
+        elif isinstance(n, ast.Attribute) and isinstance(n.ctx, ast.Load) and isinstance(n.value, ast.Name) and (n.value.id + "." + n.attr) in roots:
+            cls, how = classify(n)
+            fns = enclosing_funcs(n)
+            uses.append({"file": fname, "name": n.value.id + "." + n.attr, "line": n.lineno, "fn": getattr(fns[0], "name", "<lambda>") if fns else "<module>",
+                         "class": cls, "how": how})
+        elif isinstance(n, ast.Name) and isinstance(n.ctx, (ast.Store, ast.Del)):
+            fns = enclosing_funcs(n)
+            if fns and n.id in roots and n.id in globs[fns[0]]:
+                uses.append({"file": fname, "name": n.id, "line": n.lineno, "fn": getattr(fns[0], "name", "<lambda>"), "class": 2,
+                             "how": "rebound through a global statement"})
+            elif isinstance(parent.get(n), ast.AugAssign) and parent[n].target is n:
+                r = resolve_store(n)
+                if r:
+                    uses.append({"file": fname, "name": r[0], "line": n.lineno, "fn": getattr(fns[0], "name", "<lambda>") if fns else "<module>",
+                                 "class": 2, "how": "augmented assignment (in-place for set/list/dict)"})
+    # `X.setdefault("k", D)` / `X.get("k", D)` sites: how the default of each ctx key is made
+    sites = []
+    for n in ast.walk(tree):
+        if isinstance(n, ast.Call) and isinstance(n.func, ast.Attribute) and n.func.attr in ("setdefault", "get") and len(n.args) == 2 \
+                and isinstance(n.args[0], ast.Constant) and isinstance(n.args[0].value, str):
+            d = n.args[1]
+            obj = ""
+            if md(d):
+                dc = 2
+                obj = md(d)[0]
+            elif value_class(d) == "immutable" and not isinstance(d, (ast.Name, ast.Attribute)):
+                dc = 0
+            elif isinstance(d, (ast.Dict, ast.List, ast.Set, ast.DictComp, ast.ListComp, ast.SetComp)) or \
+                    (isinstance(d, ast.Call) and isinstance(d.func, ast.Name) and d.func.id in ("set", "dict", "list", "frozenset", "tuple")):
+                dc = 0
+            else:
+                dc = 1
+            sites.append({"file": fname, "key": n.args[0].value, "line": n.lineno, "method": n.func.attr, "class": dc, "obj": obj,
+                          "default": " ".join(ast.unparse(d).split())[:60], "node": n})
+    # the keys parse() seeds its fresh ctx with
+    pre = None
+    for fn in tree.body:
+        if isinstance(fn, ast.FunctionDef) and fn.name == "parse":
+            for n in ast.walk(fn):
+                tgt = None
+                if isinstance(n, ast.AnnAssign) and isinstance(n.target, ast.Name) and n.target.id == "ctx":
+                    tgt = n.value
+                elif isinstance(n, ast.Assign) and len(n.targets) == 1 and isinstance(n.targets[0], ast.Name) and n.targets[0].id == "ctx":
+                    tgt = n.value
+                if isinstance(tgt, ast.Dict):
+                    pre = []
+                    for k, v in zip(tgt.keys, tgt.values):
+                        if isinstance(k, ast.Constant) and isinstance(k.value, str):
+                            fresh = not md(v) and (value_class(v) == "immutable" and not isinstance(v, (ast.Name, ast.Attribute)) or
+                                                   isinstance(v, (ast.Dict, ast.List, ast.Set)) and not (getattr(v, "keys", None) or getattr(v, "elts", None)) or
+                                                   (isinstance(v, ast.Call) and isinstance(v.func, ast.Name) and v.func.id in ("set", "dict", "list") and not v.args))
+                            pre.append({"key": k.value, "fresh": bool(fresh), "line": k.lineno})
+    # the straight-line prologue of _parse_simple_lines: keys every parse() has before its first statement is looked at
+    prologue = None
+    for fn in tree.body:
+        if isinstance(fn, ast.FunctionDef) and fn.name == "_parse_simple_lines":
+            prologue = []
+            by_node = {id(x["node"]): x for x in sites}
+            for st in fn.body:
+                if not isinstance(st, (ast.Assign, ast.AnnAssign, ast.Expr)):
+                    break
+                v = st.value
+                if isinstance(v, ast.Call) and id(v) in by_node and isinstance(v.func.value, ast.Name) and v.func.value.id == "ctx" \
+                        and by_node[id(v)]["method"] == "setdefault":
+                    prologue.append({"key": by_node[id(v)]["key"], "class": by_node[id(v)]["class"], "line": v.lineno})
+    for x in sites:
+        del x["node"]
+    uses.sort(key=lambda u: (u["file"], u["line"], u["name"], u["how"]))
+    sites.sort(key=lambda u: (u["file"], u["line"], u["key"]))
+    return uses, sites, pre, prologue
+
+
 # ---------------------------------------------------------------------- ambient inputs
 # builtins whose result depends on the process (hash seed, addresses, environment, files, the user)
 AMBIENT_BUILTINS = {"hash", "id", "open", "input", "__import__", "eval", "exec", "compile", "globals", "locals", "vars", "dir",
@@ -940,6 +1434,18 @@ def analyse(src_dir: Path, die):
         sites += an.sites
         state += module_state(f, trees[f])
     state += module_state("ast.py", trees["ast.py"])
+    uses, dsites, pre, prologue = [], [], None, None
+    for f in FILES + ["ast.py"]:
+        u_, d_, p_, g_ = module_uses(f, trees[f])
+        uses += u_
+        dsites += d_
+        if f == "parser.py":
+            pre, prologue = p_, g_
+    if pre is None:
+        die("setsites: the `ctx = {...}` dictionary of parse() was not found in parser.py - the walker no longer understands the source")
+    if prologue is None:
+        die("setsites: _parse_simple_lines was not found in parser.py - the walker no longer understands the source")
+    analyse.uses = (uses, dsites, pre, prologue)
     sites.sort(key=lambda s: (s["file"], s["line"], s["iter"], s["consumer"]))
     return sites, state
 
@@ -974,6 +1480,31 @@ def generate(api):
         [f"mk_imp {api.ctext(i['file'])} {api.ctext(i['module'])} {api.ctext(i['fn'])} {i['line']}\n    (* {i['file']}:{i['line']} import {i['module']} in {i['fn']} *)" for i in imports]) + ".\n\n")
     out.append("Definition ambient_calls : list (text * text * Z) := " + api.clist(
         [f"({api.ctext(c['file'])}, {api.ctext(c['fn'])}, {c['line']})\n    (* {c['file']}:{c['line']} {c['fn']} *)" for c in calls]) + ".\n")
+    uses, dsites, pre, prologue = analyse.uses
+    out.append("\n(* Every use of a module-level (or class-level) mutable object inside the three files.\n"
+               "   class 0: read-only; 1: the object (or a mutable part of it) ESCAPES - passed to a call such as ctx.setdefault(key, M) /\n"
+               "   ctx.get(key, M), stored into a container / item / attribute, returned, default argument; 2: mutated (by name or through a\n"
+               "   local alias the walker follows). *)\n")
+    out.append("Record muse := mk_muse { u_file : text; u_name : text; u_line : Z; u_class : Z }.\n\n")
+
+    def cmt(t):
+        return t.replace("*)", "* )").replace("(*", "( *")
+    out.append("Definition module_uses : list muse := " + api.clist(
+        [f"mk_muse {api.ctext(u['file'])} {api.ctext(u['name'])} {u['line']} {u['class']}\n    (* {u['file']}:{u['line']} {u['name']} in {u['fn']}: {cmt(u['how'])} *)" for u in uses]) + ".\n\n")
+    out.append("(* How the default of every `X.setdefault(\"key\", D)` / `X.get(\"key\", D)` is made.\n"
+               "   class 0: a fresh object / an immutable constant; 1: a local (per-call) object; 2: a module-level mutable object or an alias of one. *)\n")
+    out.append("(* d_method: 0 = get, 1 = setdefault; d_obj: the module-level object (class 2), else empty *)\n")
+    out.append("Record dsite := mk_dsite { d_file : text; d_key : text; d_line : Z; d_method : Z; d_class : Z; d_obj : text }.\n\n")
+    out.append("Definition default_sites : list dsite := " + api.clist(
+        [f"mk_dsite {api.ctext(d['file'])} {api.ctext(d['key'])} {d['line']} {1 if d['method'] == 'setdefault' else 0} {d['class']} {api.ctext(d['obj'])}"
+         f"\n    (* {d['file']}:{d['line']} .{d['method']}({d['key']!r}, {cmt(d['default'])}) *)" for d in dsites]) + ".\n\n")
+    out.append("(* The keys parse() seeds its per-call ctx dictionary with; true = with a fresh object / constant. *)\n")
+    out.append("Definition ctx_preseeded : list (text * bool) := " + api.clist(
+        [f"({api.ctext(k['key'])}, {'true' if k['fresh'] else 'false'})\n    (* parser.py:{k['line']} {k['key']} *)" for k in pre]) + ".\n")
+    out.append("\n(* The straight-line prologue of _parse_simple_lines: `ctx.setdefault(key, D)` executed before the first statement of every\n"
+               "   snippet; with the class of D as above. *)\n")
+    out.append("Definition ctx_prologue : list (text * Z) := " + api.clist(
+        [f"({api.ctext(k['key'])}, {k['class']})\n    (* parser.py:{k['line']} {k['key']} *)" for k in prologue]) + ".\n")
     api.write_if_changed(api.GEN / "SetSites.v", "".join(out))
 
 
@@ -989,3 +1520,11 @@ if __name__ == "__main__":   # debugging aid: print the inventory
         print(x["class"], f"{x['file']}:{x['line']}", x["fn"], "|", x["consumer"], "|", x["iter"], "|", x["kind"])
     for x in st:
         print("STATE", x["file"], x["line"], x["name"], x["vclass"], x["mutated"], x["how"])
+    us, ds, pre, prologue = analyse.uses
+    for x in us:
+        print("USE", x["class"], f"{x['file']}:{x['line']}", x["name"], x["fn"], "|", x["how"])
+    for x in ds:
+        if x["class"]:
+            print("DEFAULT", x["class"], f"{x['file']}:{x['line']}", x["key"], x["method"], x["default"])
+    print("PRESEEDED", [(k["key"], k["fresh"]) for k in pre])
+    print("PROLOGUE", [(k["key"], k["class"]) for k in prologue])
